@@ -172,3 +172,45 @@ Proof.
   split; [exact (exit_status_exact g Hwf) | exact (no_run_after_failed_dep g)].
 Qed.
 Print Assumptions C05_all.
+
+(* the per-step facts behind the bound (stronger than the first conjunct above), for all graphs *)
+Theorem C05_steps : forall g,
+    (forall ls s, run g (init g) ls = Some s -> length ls + mu g s <= mu_bound g) /\
+    (forall s l, reachable g s -> enabled g s l = true -> mu g (apply g s l) < mu g s) /\
+    (forall s, reachable g s ->
+       ((exists t, (12 <= rank (ts s t))%N) \/ (exists o, In o (trace s) /\ bad_event o = true)) -> failed s = true).
+Proof.
+  intros g. split; [exact (run_length_bound g)|].
+  split; [intros s l Hr He; apply mu_step; [apply (J_reachable g s Hr) | exact He]|].
+  intros s Hr [[t Ht]|Hb]; [exact (F_reachable g s Hr t Ht) | exact (bad_event_failed g s Hr Hb)].
+Qed.
+
+(* a state in which nothing but the inactivity timer can move contains a dependency cycle through a needed label;
+   the timer step reports it and makes the exit status non-zero *)
+Theorem only_timer_means_cycle : forall g, wf g -> forall s, reachable g s -> exited s = false ->
+  (forall l, enabled g s l = true -> exists c, l = LTimerCycleCheck c) ->
+  exists a c, enabled g s (LTimerCycleCheck (a :: c)) = true /\ needed g a /\ tdep g a a /\
+              failed (apply g s (LTimerCycleCheck (a :: c))) = true.
+Proof.
+  intros g Hwf s Hr Hx Honly. destruct (deadlock_free g Hwf s Hr Hx) as [l He].
+  destruct (Honly l He) as [c0 ->]. pose proof He as He'. unfold enabled in He'. btrue.
+  destruct c0 as [|a c]; [match goal with H : is_cycle _ _ [] = true |- _ => discriminate H end|].
+  match goal with H : is_cycle _ _ _ = true |- _ => unfold is_cycle in H; destruct (path_tdep _ _ _ _ _ H) as [Ht Ha] end.
+  destruct (Inv05_reachable g s Hwf Hr) as [_ _ _ _ _ HN].
+  exists a, c. split; [exact He|]. split; [apply (n_asy g s HN a Ha)|]. split; [exact Ht|].
+  rewrite C05_InvP.view_failed. reflexivity.
+Qed.
+
+(* a computable sufficient condition for wf (used by the non-vacuity examples) *)
+Lemma wf_of : forall g, forallb (fun t => forallb (fun d => Nat.ltb d (g_n g)) (g_deps g t)) (seq 0 (g_n g)) = true ->
+  (forall t, g_n g <= t -> g_deps g t = []) -> forallb (fun l => Nat.ltb l (g_n g)) (g_req g) = true -> 1 <= g_threads g -> wf g.
+Proof.
+  intros g H1 H0 H2 H3. split; [|split; [|exact H3]].
+  - intros t d Hd. destruct (Nat.lt_ge_cases t (g_n g)) as [Ht|Ht]; [|rewrite (H0 t Ht) in Hd; contradiction].
+    rewrite forallb_forall in H1. specialize (H1 t ltac:(apply in_seq; auto with arith)).
+    rewrite forallb_forall in H1. apply Nat.ltb_lt. apply H1. exact Hd.
+  - intros l Hl. rewrite forallb_forall in H2. apply Nat.ltb_lt. apply H2. exact Hl.
+Qed.
+Lemma graph_of_deps_out : forall pkgs deps decl ok req kg th t, length deps <= t -> g_deps (graph_of pkgs deps decl ok req kg th) t = [].
+Proof. intros. cbn. apply nth_overflow. assumption. Qed.
+
